@@ -176,6 +176,22 @@ func newC08Run(scn c08Scn) *c08Run {
 			if lp, ok := e.Conn().(LoginPhaseConnection); ok {
 				_ = lp.SendLoginPluginMessage(ch, []byte{1}, funcConsumer(func([]byte) error { return nil }))
 			}
+		case "preclose": // the handler drops the connection itself
+			_ = s.Conn.Close()
+		}
+	})
+	// quantifier audit: event handlers that refuse or drop the client AFTER authentication (cleanup paths)
+	kitOn(s.Events, func(e *GameProfileRequestEvent) {
+		if scn.Pre == "gpclose" {
+			_ = s.Conn.Close()
+		}
+	})
+	kitOn(s.Events, func(e *LoginEvent) {
+		switch scn.Pre {
+		case "logindeny":
+			e.Deny(&component.Text{Content: "login denied by verif"})
+		case "loginclose":
+			_ = s.Conn.Close()
 		}
 	})
 	kitOn(s.Events, func(e *LoginEvent) {
@@ -498,6 +514,10 @@ func honest(scn c08Scn) (key, desc string, good []c08Op) {
 	if !(scn.Pre == "offline" || (scn.So == "200" && scn.Pre != "deny")) {
 		return "", "", nil
 	}
+	switch scn.Pre {
+	case "preclose", "gpclose", "logindeny", "loginclose":
+		return "", "", nil // a handler refuses the client: no admission to expect
+	}
 	good = []c08Op{{"LSv"}, {"ERg"}}
 	if scn.Pre == "offline" {
 		good = good[:1]
@@ -548,6 +568,12 @@ func c08Scenarios(thorough bool) []c08Scn {
 	// configuration switch on the path: the join request carries the client's address
 	out = append(out, c08Scn{Proto: 47, Pre: "allow", So: "200", PP: true}, c08Scn{Proto: 764, Pre: "allow", So: "204", PP: true},
 		c08Scn{Proto: 764, Pre: "allow", So: "200", PP: true})
+	// event handlers refusing / dropping the client before and after authentication
+	for _, p := range []int{47, 764} {
+		for _, pre := range []string{"preclose", "gpclose", "logindeny", "loginclose"} {
+			out = append(out, c08Scn{Proto: p, Pre: pre, So: "200"})
+		}
+	}
 	// keyless 1.19 / 1.19.1 clients (the only versions whose EncryptionResponse can carry a salt)
 	// on a proxy that does not force key authentication
 	for _, p := range []int{759, 760} {
